@@ -478,7 +478,7 @@ def run(ck):
     n5 = 0
     for o in sub.obligations:
         if o['rule'] in ('R15.2', 'R15.3') or (o['rule'] == 'R15.4' and o['key'].endswith('|skipped-only-if-same-bytes')) or \
-                (o['rule'] == 'R15.5' and o['key'] in ('ui-path-gets-form-xml', 'both-outputs-written')):
+                (o['rule'] == 'R15.5' and (o['key'] in ('ui-path-gets-form-xml', 'both-outputs-written') or o['key'].startswith('buffer-starts-empty|'))):
             n5 += 1
             ck.ob('R9.5', '%s|%s' % (o['rule'], o['key']), o['ok'], o['loc'], o['detail'], nontrivial=False)
     ck.floor('R9.5', n5, 19, 'writer-protocol obligations shared with C15')
